@@ -46,6 +46,9 @@ BUDGET = {"quick": {"shards": 8, "examples": 250, "wall": 110},
 def strategy_(draw, thorough):
     base = draw(datasets.dataset(thorough=thorough, partition_prob=3, min_rows=draw(st.sampled_from([0, 1, 1, 2]))))
     fr0, opts = base["frame"], base["opts"]
+    frames.pin_object_schema(fr0)
+    if draw(st.integers(0, 3)) > 0:
+        opts["has_nulls"] = True      # later batches may hold nulls where the first does not
     pn = list(base.get("partition_on") or [])
     nb = draw(st.integers(1, 4))
     batches = [fr0]
